@@ -200,7 +200,10 @@ structure Defects where
   commitFailureLeavesTxnOpen : Bool
 deriving Repr, DecidableEq
 
-def Defects.asImplemented : Defects := ⟨true, true⟩
+/-- /repo since commit 6475b84 ("fix: roll back the batch transaction when the daily-log marks write or
+    COMMIT fails"); before that commit both switches were on (finding
+    `txn-left-open-after-failed-marks-or-commit`). `C13_table_defectsAsInSource` ties this to the source. -/
+def Defects.asImplemented : Defects := ⟨false, false⟩
 def Defects.none : Defects := ⟨false, false⟩
 
 def replies (a : Ack) (ms : List Msg) : List Ack := ms.map fun _ => a
